@@ -244,6 +244,7 @@ type snapRec struct {
 	evalOK bool
 	vars   map[string]any
 	closed bool
+	inCap  bool // inside a capture: no mark follows, the output is not in the main stream
 }
 
 type snapState struct {
@@ -268,6 +269,20 @@ func registerSnap(e *liquid.Engine) {
 		st.recs = append(st.recs, rec)
 		st.stack = append(st.stack, rec.id)
 		return fmt.Sprintf("\x01%d\x02", rec.id), nil
+	})
+	e.RegisterTag("snapc", func(ctx render.Context) (string, error) {
+		st := curSnap
+		if st == nil {
+			return "", nil
+		}
+		rec := &snapRec{id: len(st.recs), vars: map[string]any{}, inCap: true}
+		for k, v := range ctx.Bindings() {
+			rec.vars[k] = v
+		}
+		v, err := ctx.EvaluateString(ctx.TagArgs())
+		rec.target, rec.evalOK = v, err == nil
+		st.recs = append(st.recs, rec)
+		return "", nil
 	})
 	e.RegisterTag("mark", func(ctx render.Context) (string, error) {
 		st := curSnap
@@ -554,7 +569,29 @@ func (x *c14Run) judge(o *c14Out, unreadable map[string]bool) {
 	// expectation per executed include
 	mustFail := ""
 	mayFail := false
-	for _, rec := range o.snaps.recs {
+	for ri, rec := range o.snaps.recs {
+		if rec.inCap {
+			// an include inside a capture: it completed iff anything was recorded after it
+			// or the render succeeded; only when it is the last thing reached by a failed
+			// render can it be what failed
+			if res.OK || ri != len(o.snaps.recs)-1 {
+				continue
+			}
+			target, isStr := rec.target.(string)
+			if !rec.evalOK || !isStr {
+				mustFail = "include argument inside a capture is not a string"
+				break
+			}
+			kind, src := x.choose(x.abs(target), unreadable)
+			if kind == "error" {
+				mustFail = "unresolvable include " + target + " inside a capture"
+			} else if kind == "either" {
+				mayFail = true
+			} else if exp := x.direct(src, rec.vars); !exp.OK {
+				mayFail = true
+			}
+			break
+		}
 		target, isStr := rec.target.(string)
 		if !rec.evalOK {
 			mustFail = "include argument does not evaluate"
